@@ -119,10 +119,33 @@ def prop_theorems(pid: str):
     return names
 
 
-def forbidden_scan():
+def _import_closure(pid):
+    """Lean source files (inside the project) transitively imported by Props/<pid>.lean, plus
+    the driver's sources (the model files the correspondence executes)."""
+    roots = [LEAN / "DaskArrayModel" / "Props" / f"{pid}.lean", LEAN / "Driver.lean"]
+    seen = {}
+    stack = [r for r in roots if r.exists()]
+    while stack:
+        f = stack.pop()
+        if f in seen:
+            continue
+        src = f.read_text()
+        seen[f] = src
+        for m in re.finditer(r"^\s*import\s+(DaskArrayModel(?:\.\w+)+)", src, re.M):
+            g = LEAN / (m.group(1).replace(".", "/") + ".lean")
+            if g.exists():
+                stack.append(g)
+    return seen
+
+
+def forbidden_scan(pid=None):
     hits = []
-    for f in sorted((LEAN / "DaskArrayModel").rglob("*.lean")) + [LEAN / "Driver.lean"]:
-        src = _strip_comments(f.read_text())
+    if pid is None:
+        files = {f: f.read_text() for f in sorted((LEAN / "DaskArrayModel").rglob("*.lean")) + [LEAN / "Driver.lean"]}
+    else:
+        files = _import_closure(pid)
+    for f, text in sorted(files.items()):
+        src = _strip_comments(text)
         for k, line in enumerate(src.splitlines(), 1):
             if FORBIDDEN.search(line):
                 hits.append(f"{f.relative_to(LEAN)}:{k}: {line.strip()[:120]}")
@@ -146,7 +169,7 @@ def lean_audit(pid: str, tier: str):
         bad = re.findall(r"error: (\S+\.lean:\d+:\d+): (.*)", log)
         res["broken"] = [f"lake build failed: {a}: {b[:200]}" for a, b in bad[:5]] or ["lake build failed"]
         return res
-    hits = forbidden_scan()
+    hits = forbidden_scan(pid)
     if hits:
         res["broken"] += [f"forbidden construct: {h}" for h in hits]
     if not thms:
